@@ -880,11 +880,13 @@ def isinstance_(I, ctx, v, t):
 @model(builtins.sorted)
 def m_sorted(I, ctx, args, kwargs, node):
     arg = args[0]
-    if kwargs or not all(is_num(e) or is_boolish(e) for _, e in items_of(to_seq(I, ctx, arg) if not (isinstance(arg, (Ref, Snapshot))
-                                                                          and kind_of(arg) == 'set') else ())):
+    is_set = isinstance(arg, (Ref, Snapshot)) and kind_of(arg) == 'set'
+    rev = kwargs.get('reverse', False)
+    numeric = is_set or all(is_num(e) or is_boolish(e) for _, e in items_of(to_seq(I, ctx, arg)))
+    if 'key' in kwargs or not numeric or set(kwargs) - {'key', 'reverse'} or not isinstance(rev, bool):
         # keys / non-numeric elements: only when everything needed for the order is concrete (CPython sorts)
         seq = to_seq(I, ctx, arg)
-        if not isinstance(seq, tuple) or set(kwargs) - {'key', 'reverse'}:
+        if not isinstance(seq, tuple) or set(kwargs) - {'key', 'reverse'} or not isinstance(rev, bool):
             raise PyvcUnsupported('sorted with key over a symbolic-length sequence')
         key = kwargs.get('key')
         keys = [I.call(key, [e], {}, ctx, node) if key is not None else e for e in seq]
@@ -901,15 +903,22 @@ def m_sorted(I, ctx, args, kwargs, node):
                 raise PyvcUnsupported('sorted with a symbolic key')
             return v
         ks = [conc(k) for k in keys]
-        rev = kwargs.get('reverse', False)
-        if not isinstance(rev, bool):
-            raise PyvcUnsupported('sorted with symbolic reverse')
         order = sorted(range(len(seq)), key=lambda i: ks[i], reverse=rev)
         return ctx.alloc('list', tuple(seq[i] for i in order))
-    if isinstance(arg, (Ref, Snapshot)) and kind_of(arg) == 'set':
+    if is_set:
         seq = dedupe(I, ctx, set_content(I, ctx, arg))
     else:
         seq = to_seq(I, ctx, arg)
+    if rev:
+        # descending order of numbers: sort the negated values ascending, negate back (absent slots stay last)
+        neg = SymSeq([simp(-znum(b2i(e))) if is_sym(b2i(e)) else -b2i(e) for e in as_symseq(seq).slots], as_symseq(seq).n, as_symseq(seq).flags) \
+            if isinstance(seq, SymSeq) else tuple((simp(-znum(b2i(e))) if is_sym(b2i(e)) else -b2i(e)) for e in seq)
+        out = sort_seq(I, ctx, neg)
+        if isinstance(out, SymSeq):
+            back = SymSeq([simp(-znum(e)) if is_sym(e) else -e for e in out.slots], out.n, out.flags)
+        else:
+            back = tuple((simp(-znum(e)) if is_sym(e) else -e) for e in out)
+        return ctx.alloc('list', back)
     return ctx.alloc('list', sort_seq(I, ctx, seq))
 
 
